@@ -60,14 +60,22 @@ func (c *BindingManager) AddBinding(remoteDevice api.DeviceRemoteInterface, data
 		return err
 	}
 
+	c.mux.Lock()
+	defer c.mux.Unlock()
+
+	// the lock was released after the check above: another request for the same server
+	// feature may have been granted meanwhile, so check again where the entry is inserted
+	for _, item := range c.bindingEntries {
+		if reflect.DeepEqual(*item.ServerFeature.Address(), *serverFeature.Address()) {
+			return errors.New("the server feature already has a binding")
+		}
+	}
+
 	bindingEntry := &api.BindingEntry{
 		Id:            c.bindingId(),
 		ServerFeature: serverFeature,
 		ClientFeature: clientFeature,
 	}
-
-	c.mux.Lock()
-	defer c.mux.Unlock()
 
 	c.bindingEntries = append(c.bindingEntries, bindingEntry)
 
